@@ -255,7 +255,9 @@ class FALCON:
         action_indices = np.array(range(len(action_space)))
 
         reward_dist = rewards
-        reward_dist /= np.sum(reward_dist)
+        total = np.sum(reward_dist)
+        if total > 0:
+            reward_dist /= total
         reward_dist = reward_dist.reshape((-1,))
 
         if optimality == "min":
